@@ -20,6 +20,7 @@ import (
 )
 
 type netPub struct {
+	localOnly bool
 	seq       int
 	node      int
 	topic     string
@@ -170,6 +171,9 @@ func (w *netWorld) start() bool {
 		}
 		var opts []Option
 		opts = append(opts, WithPeerOutboundQueueSize(p.ki("queue_size", 32)))
+		if v := p.ki("max_msg_size", 0); v > 0 {
+			opts = append(opts, WithMaxMessageSize(v))
+		}
 		switch p.ks("sign", "strict") {
 		case "strictnosign":
 			opts = append(opts, WithMessageSignaturePolicy(StrictNoSign), WithMessageIdFn(func(m *pb.Message) string { return "c:" + m.GetTopic() + "|" + string(m.GetData()) }))
@@ -657,7 +661,7 @@ func (w *netWorld) exec(it Item) {
 			}
 		}
 	case "pub":
-		w.publish(w.idx(it.a(0)), w.topicName(it.a(1)), int(it.a(2)), it.a(3) != 0)
+		w.publishMode(w.idx(it.a(0)), w.topicName(it.a(1)), int(it.a(2)), it.a(3) != 0, int(it.a(4)))
 	case "evh":
 		w.evhNew(w.idx(it.a(0)), w.topicName(it.a(1)))
 	case "connburst":
@@ -783,6 +787,13 @@ func (w *netWorld) outStream(a, b int) *simStream {
 }
 
 func (w *netWorld) publish(i int, topic string, size int, bad bool) {
+	w.publishMode(i, topic, size, bad, 0)
+}
+
+// publishMode: 0 Topic.Publish; 1 AddToBatch + PublishBatch (gossipsub publishers, otherwise as 0);
+// 2 the same with WithLocalPublication(true); 3 Topic.Publish with WithLocalPublication(true).
+// A local-only publication is owed to the publisher's own subscriptions and to nobody else.
+func (w *netWorld) publishMode(i int, topic string, size int, bad bool, mode int) {
 	s := w.s
 	n := w.nodes[i]
 	w.nextSeq++
@@ -795,18 +806,62 @@ func (w *netWorld) publish(i int, topic string, size int, bad bool) {
 	for len(data) < size {
 		data += "x"
 	}
+	if lim := w.plan.ki("max_msg_size", 0); lim > 0 {
+		// (runs with a size limit use the no-sign policy, so the size of the frame that carries the
+		// message is a function of payload, topic and author alone.) A payload that does not fit is
+		// cut down to the longest one that does: most of those fill a frame exactly.
+		frame := func(d string) int {
+			m := &pb.Message{From: []byte(n.h.id), Seqno: make([]byte, 8), Data: []byte(d), Topic: &topic}
+			return (&pb.RPC{Publish: []*pb.Message{m}}).Size()
+		}
+		for len(data) > 0 && frame(data) > lim {
+			data = data[:len(data)-1]
+		}
+		if frame(data) == lim {
+			s.probe("c01_message_fills_a_frame_exactly")
+		}
+	}
 	pb := &netPub{seq: seq, node: i, topic: topic, data: data, at: s.now()}
 	pb.settled = s.now()-w.lastChurn >= w.settleNeed()
 	w.pubs = append(w.pubs, pb)
 	w.payloads[data] = pb
 	w.classify(pb)
-	c := s.do(fmt.Sprintf("Publish N%d %s #%d", i, topic, seq), func() any {
+	if (mode == 1 || mode == 2) && w.router[i] != "gossipsub" {
+		mode = map[int]int{1: 0, 2: 3}[mode]
+	}
+	local := mode == 2 || mode == 3
+	if local {
+		s.probe("c01_local_only_publication")
+		own := pb.expect[i]
+		pb.expect = map[int][]int{}
+		if len(own) > 0 {
+			pb.expect[i] = own
+		}
+		pb.eligible, pb.why, pb.localOnly = true, "", true
+	}
+	var opts []PubOpt
+	if local {
+		opts = append(opts, WithLocalPublication(true))
+	}
+	name := "Publish"
+	if mode == 1 || mode == 2 {
+		name = "AddToBatch+PublishBatch"
+		s.probe("c01_batch_publication")
+	}
+	c := s.do(fmt.Sprintf("%s N%d %s #%d", name, i, topic, seq), func() any {
 		n.topicOpts = w.topicOpts(i)
 		tp, err := n.topic(topic)
 		if err != nil {
 			return err
 		}
-		return tp.Publish(context.Background(), []byte(data))
+		if mode == 1 || mode == 2 {
+			var b MessageBatch
+			if err := tp.AddToBatch(context.Background(), &b, []byte(data), opts...); err != nil {
+				return err
+			}
+			return n.ps.PublishBatch(&b)
+		}
+		return tp.Publish(context.Background(), []byte(data), opts...)
 	})
 	pb.call = c
 }
